@@ -104,9 +104,8 @@ theorem ephemerality_bound (raw : Raw) (e : Env) (t0 : Int) (ops : List Op) (hw 
     · rename_i en _
       split at hre
       · rename_i hlt
-        cases hre
-        show s.now < en.deadline
-        rw [hag.now, hnow]; exact hlt
+        have h2 : r.expires = en.deadline := (Prod.mk.inj (Option.some.inj hre)).2
+        rw [h2, hag.now, hnow]; exact hlt
       · cases hre
     · cases hre
   · -- C06.refines_at on the projected history
@@ -168,6 +167,36 @@ theorem chunk_ephemeral (raw : Raw) (e : Env) (t0 : Int) (pre post : List Op) (c
     have h2 := hexp r hr
     simp only at h1
     omega
+
+/-- **Provider lookups of the node are exactly the abstract directory of C06** (each provider's most recent
+    announcement, unless withdrawn or cut, and not yet expired; at most 20), on the provider-directory history
+    `Sys.locHist` that the node history amounts to (C06.refines_at through `Sys.lagree_reach`). -/
+theorem provider_lookup_exact (cfg : Cfg) (t0 : Int) (ops : List Op) (c : String) :
+    let s := (C05.reach cfg t0 ops).s
+    let st := (C06L.run (C06L.init t0) (locHist cfg (State.init cfg t0) ops)).1
+    List.Perm (Providers.findProviders s.locs s.now c).2 (C06Spec.find st.s s.now c) ∧
+    (Providers.findProviders s.locs s.now c).2.length ≤ 20 := by
+  intro s st
+  have hl := lagree_reach cfg t0 ops
+  have h := C06.refines_at t0 (locHist cfg (State.init cfg t0) ops) c
+  simp only [hl.t, hl.now] at h
+  exact ⟨h.1, h.2.2⟩
+
+/-- **A cleanup is invisible to provider lookups** (C06.sweep_safe): a tick whose cleanup finds no expired
+    local chunk is, for the provider directory, a bare sweep — the abstract directory after it is the one
+    before it, so every later lookup answers as if the tick had not happened. -/
+theorem cleanup_keeps_directory (cfg : Cfg) (t0 : Int) (pre : List Op)
+    (hgate : gate cfg (C05.reach cfg t0 pre).s = true)
+    (hnone : (ChunkStore.sweep (C05.reach cfg t0 pre).s.recs (C05.reach cfg t0 pre).s.now).2 = []) :
+    (C06L.run (C06L.init t0) (locHist cfg (State.init cfg t0) (pre ++ [Op.tick]))).1.s =
+      (C06L.run (C06L.init t0) (locHist cfg (State.init cfg t0) pre)).1.s := by
+  have happ := locHist_append cfg (State.init cfg t0) pre [Op.tick] []
+  have hs : (run cfg ⟨State.init cfg t0, []⟩ pre).s = (C05.reach cfg t0 pre).s := rfl
+  rw [happ, hs]
+  have hops : locHist cfg (C05.reach cfg t0 pre).s [Op.tick] = [Providers.Op.sweep] := by
+    simp only [locHist, locOps, hgate, if_true, hnone, List.map_nil, List.nil_append, List.append_nil]
+  rw [hops]
+  exact (C06.sweep_safe t0 (locHist cfg (State.init cfg t0) pre) []).1
 
 /-- **When the physical removal happens.**  A tick runs the cleanup exactly when `cleanup_interval` has elapsed
     since the previous cleanup (C05.tick_cleans_iff); after a tick that cleans at `T` nothing with deadline
